@@ -381,6 +381,10 @@ def run_history(case):
         return {"error": repr(e)[:300]}
 
 
+# the arrays handed to the constructor that run_ctor writes into afterwards (Model/Heap.v: n_ctor_inputs)
+CTOR_INPUTS = ["matrix", "weights", "objectives", "alternatives", "criteria"]
+
+
 def run_ctor(case):
     """Write into everything handed to the constructor after construction."""
     try:
@@ -434,6 +438,10 @@ def run(ctx):
     if n_model != len(SURFACE) or not all(modes):
         ctx.disagree({"surface": SURFACE}, {"what": "accessor enumeration differs from the Coq model",
                                             "harness": len(SURFACE), "model": n_model})
+    n_in, in_modes = ctx.model.one("ctor_surface", 0)
+    if n_in != len(CTOR_INPUTS) or not all(in_modes):
+        ctx.disagree({"ctor_inputs": CTOR_INPUTS}, {"what": "constructor inputs differ from the Coq model (Model/Heap.v)",
+                                                    "harness": len(CTOR_INPUTS), "model": n_in})
     for cls, names in surface_gaps():
         ctx.disagree({"class": cls}, {"what": "public members missing from the accessor enumeration", "names": names})
     cases = []
